@@ -47,7 +47,9 @@ MEMO_TECH = TECH % ('call/management/restart/fault histories over the decorator 
 for _p, _txt, _orc in [
     ('C01', 'every value returned through any of the 12 decorators, at every step of seeded histories mixing calls '
             '(several spellings), load/dump/clear/toggle/swap, restarts on the same location, clock steps, calls of a second '
-            'instance on the same archive and of a sibling function sharing the code object (other defaults), calls that pass '
+            'instance on the same archive and of a sibling function sharing the code object (other defaults), restarts that re-open '
+            'the archive directory with other compatible storage options, decorator objects copied or pickled before use, two '
+            'live default-repr objects as arguments, calls that pass '
             'one list object again after mutating it in place, is '
             'compared with a direct evaluation of the undecorated function; no exception other than the function\'s own '
             'may reach the caller', 'a direct evaluation of the undecorated function at every call'),
@@ -65,17 +67,18 @@ for _p, _txt, _orc in [
     ('C06', 'call-only histories from an empty cache (plus raising calls), up to 400 steps with hit bursts that trigger '
             'the LRU queue compaction, caches of 1000+ entries with 10000+ hits between overflows, caches of 30-40 entries (LFU batch > 2) and sweep workloads that tie all use counts: the set leaving memory on each overflow must be exactly what LRU/MRU/LFU/RR '
             'select according to last-use stamps and use counts kept by the harness; purge configurations whose archive is '
-            'switched off mid-run (counts restart when a purge empties memory)', 'an executable policy model (last-use stamps, use counts) after every call'),
+            'switched off mid-run (counts restart when a purge empties memory); MRU histories where an archive is attached to a '
+            'partly filled cache and load() fills it before the next miss', 'an executable policy model (last-use stamps, use counts) after every call'),
     ('C07', 'every key leaving memory during a call must be in the attached archive with the same value, no archived '
             'entry may change or vanish, and in strict runs every computed result stays retrievable; in "unenc" runs some '
             'results are refused by every encoding: the call or dump() may fail with the encoder\'s error but must lose '
             'nothing; steps where the shared store is emptied through another handle or by sync(clear=True)', 'the observed memory/archive contents before and after every call'),
     ('C15', 'info() must equal (hits, misses, loads) classified from the evaluation log and residency before each call, '
             'plus configured maxsize and current size, after every step of histories with clear/load/dump/toggle/'
-            'restart/clone, raising calls (Exception and BaseException flavours) and safe fallbacks; calls made through a second function built from the SAME '
+            'restart/clone, raising calls (Exception, BaseException, OSError/KeyError/TypeError flavours) and safe fallbacks, a generator function; calls made through a second function built from the SAME '
             'decorator object, and calls of a second instance on the same archive, must not move the counters; runs of '
             'hundreds of hits and a recursive function are accounted exactly', 'counters derived from the evaluation log after every step'),
-    ('C16', 'injected exceptions at seeded calls (Exception or interrupt-like BaseException, a fifth raised `from` an explicit cause): '
+    ('C16', 'injected exceptions at seeded calls (Exception, interrupt-like BaseException, TimeoutError/KeyError/TypeError subclasses; a fifth raised `from` an explicit cause): '
             'the same exception object, with __cause__ and __suppress_context__ as raised, reaches the caller after one evaluation and '
             'info/cache/archive are unchanged; a twin world without those calls must show identical observations at '
             'every other step (exposes corrupted recency/frequency state); safe variants with unhashable/unencodable '
@@ -96,7 +99,8 @@ CHECKS['C13'] = ('crashsim', 'fault_enumeration', '4',
     'before each mkdir/open-for-write/raw write/close/unlink/rmdir/rename/DML/commit, plus a partial-write crash for every '
     'raw write; for the sqlite file archive additionally at EVERY write/sync/truncate/unlink system call the sqlite C '
     'library issues (native LD_PRELOAD shim, incl. half-written buffers); a tenth of the single-file scenarios with the '
-    'archive file writable but its directory not (writer demoted to an unprivileged uid) - and a fresh process must read the survivor without error and see old-or-new for touched keys, untouched '
+    'archive file writable but its directory not (writer demoted to an unprivileged uid); in half of the scenarios the reading '
+    'process re-seeds the global random like the killed writer (same temporary names) - and a fresh process must read the survivor without error and see old-or-new for touched keys, untouched '
     'keys unchanged and no foreign key',
     'crash points are exhaustive per scenario, scenarios are sampled; process-kill semantics (no power loss/fsync model); '
     'crash points inside sqlite need a C compiler at check time (otherwise only Python-level points run, reported by a probe); '
